@@ -147,11 +147,14 @@ def _run_path(unit, decisions, contracts, ctx):
         frame = Frame(clo.env, clo.globs, clo.mangle, clo.qualname, clo)
         frame.locals.update(ip.bind_args(clo, [], dict(vals)))
         frame.entry = frame_entry
-        try:
-            ip.exec_block(clo.node.body, frame)
-            result = None
-        except _Return as r:
-            result = r.v
+        if getattr(obj, '__pyvc_native__', False):
+            result = obj(**vals)          # a native (syntactic) obligation, e.g. the package-wide store scan
+        else:
+            try:
+                ip.exec_block(clo.node.body, frame)
+                result = None
+            except _Return as r:
+                result = r.v
         outcome = 'return'
     except Raised as r:
         outcome = 'raise'
